@@ -45,7 +45,7 @@ PROBE = st.fixed_dictionaries({'probe': st.just(True), 'joliet': st.sampled_from
 def strategy(tier):
     cfg = gen.cfg_st(joliet=st.sampled_from([1, 2, 3, 3]))
     w = {'mixed': 4, 'growshrink': 3, 'deep': 1, 'links': 3, 'boot': 1, 'hybrid': 0}
-    progs = st.one_of(gen.mixed(True, cfg), gen.growshrink(cfg, True), gen.links(cfg, True), gen.mixed(False, cfg, 8, 40), gen.boot(cfg), gen.deep(cfg), gen.samename(cfg, True), gen.samename(cfg, True), gen.exactfill(gen.cfg_st(joliet=st.sampled_from([1, 2, 3, 3]), rr=st.just(None), xa=st.just(False)), True), gen.exactfill(gen.cfg_st(joliet=st.sampled_from([1, 2, 3, 3]), rr=st.just(None), xa=st.just(False)), False))
+    progs = st.one_of(gen.mixed(True, cfg), gen.growshrink(cfg, True), gen.links(cfg, True), gen.mixed(False, cfg, 8, 40), gen.boot(cfg), gen.deep(cfg), gen.samename(cfg, True), gen.samename(cfg, True), gen.readd(cfg, True), gen.exactfill(gen.cfg_st(joliet=st.sampled_from([1, 2, 3, 3]), rr=st.just(None), xa=st.just(False)), True), gen.exactfill(gen.cfg_st(joliet=st.sampled_from([1, 2, 3, 3]), rr=st.just(None), xa=st.just(False)), False))
     return st.tuples(st.one_of(progs, progs, PROBE), st.none())
 
 
